@@ -51,7 +51,10 @@ int main(int argc, char **argv) {
         if (!a.replay.empty()) { std::ifstream in(a.replay); if (!parse_spec(in, s)) { if (rank == 0) { fprintf(g_out, "X {\"msg\":\"cannot parse replay spec\"}\n"); fflush(g_out); } world.abort(2); } }
         else {
             GenOpts o; o.max_n = max_n; o.tie_bias = 0.55; o.allow_degenerate = true;
-            if (r.chance(0.35)) { Topo t; int n = (int) r.range(4, max_n); topo_er(r, t, n, std::min(1.0, (1.5 + 5 * r.real()) / n)); if (r.chance(0.7)) topo_tree(r, t, n); dedup(t);
+            if (r.chance(0.2)) { // dense: the all-vertices branch of the signed variant (|S_k| >= n) runs, with n not divisible by most rank counts
+                Topo t; int n = (int) r.range(6, std::min(max_n, 13)); topo_er(r, t, n, 0.7 + 0.3 * r.real()); dedup(t);
+                s.n = n; for (auto &e : t) s.edges.push_back({e.first, e.second, 1}); r.shuffle(s.edges); s.family = "er_dense"; assign_weights(r, s, o, false); }
+            else if (r.chance(0.35)) { Topo t; int n = (int) r.range(4, max_n); topo_er(r, t, n, std::min(1.0, (1.5 + 5 * r.real()) / n)); if (r.chance(0.7)) topo_tree(r, t, n); dedup(t);
                 s.n = n; for (auto &e : t) s.edges.push_back({e.first, e.second, 1}); r.shuffle(s.edges); s.family = "er"; assign_weights(r, s, o, false); }
             else s = gen_graph(r, o);
         }
